@@ -2,11 +2,14 @@
    The parser model (MiluParser.v) is instantiated with the operator ladder that the translator
    regenerates from milu/src/parser.rs on every run (Gen/Gen_ladder.v), and the documented table
    comes from milu/readme.md through the same file.  Every theorem below is a complete
-   enumeration of a finite family, evaluated inside Coq on that instantiated model; the
-   unbounded statement parse_print_roundtrip of DESIGN.md is NOT proved (see level_note). *)
-From RP Require Import Base Target MiluSyntax MiluParser MiluDoc C09Proofs.
+   enumeration of a finite family, evaluated inside Coq on that instantiated model, except the last
+   group: C09_parse_print_roundtrip is the unbounded statement (every well-formed tree of any size and
+   depth, printed with only the necessary parentheses, parses back to itself), proved by induction in
+   MiluRoundtrip.v for the regenerated ladder, and C09_blank_irrelevant covers every closed filler. *)
+From RP Require Import Base Target MiluSyntax MiluParser MiluDoc C09Proofs RtBlank RtLeaf MiluRoundtrip.
 From RP.Gen Require Import Gen_ladder.
-From Coq Require Import String.
+From Coq Require Import String ZArith Lia List.
+Import ListNotations.
 
 (* every documented binary operator alone, with every documented spelling *)
 Theorem C09_every_operator_accepted : forallb check_single (no_dot doc_binary) = true.
@@ -34,7 +37,7 @@ Print Assumptions C09_all_triples_precedence.
 
 Theorem C09_unary_binds_tighter :
   forallb (fun u => forallb (check_unary u) (no_dot doc_binary)) doc_unary = true.
-Proof. exact unary_ok. Qed.
+Proof. exact C09Proofs.unary_ok. Qed.
 Print Assumptions C09_unary_binds_tighter.
 
 Theorem C09_unary_right_to_left_postfix_tighter :
@@ -66,3 +69,36 @@ Theorem C09_blank_insensitive_samples :
   forallb (fun f => forallb (check_filler f) (no_dot doc_binary)) fillers = true.
 Proof. exact fillers_ok. Qed.
 Print Assumptions C09_blank_insensitive_samples.
+
+(* ---- the unbounded round trip ----------------------------------------------------------- *)
+(* Trees: identifiers, decimal literals, every binary operator of every level of the regenerated ladder,
+   every unary operator, index, member access, calls with any number of arguments, the conditional.
+   m_print inserts parentheses only where precedence / associativity need them; m_denote is the AST the
+   documented table prescribes.  m_wf: identifiers not starting a keyword, literals within i64, indices in
+   range.  The fuel is the one parse itself supplies. *)
+Theorem C09_parse_print_roundtrip : forall t, m_wf t ->
+  parse levels parse2_table parse1_table unary_tags MiluDoc.top_rule ternary_cond_rule (m_print t)
+  = POk (m_denote t) [].
+Proof. exact roundtrip. Qed.
+Print Assumptions C09_parse_print_roundtrip.
+
+Theorem C09_number_literals : forall n, n <= I64_MAX -> m_wf (TNum n) /\ m_denote (TNum n) = EInt (Z.of_N n).
+Proof. intros n H. split; [exact (wf_TNum n H)|exact (denote_TNum n)]. Qed.
+Print Assumptions C09_number_literals.
+
+(* white space and closed comments between tokens are skipped, whatever they contain *)
+Theorem C09_blank_irrelevant : forall bs i, blank_str bs -> skip_blank (bs ++ i) = skip_blank i.
+Proof. exact skip_blank_closed. Qed.
+Print Assumptions C09_blank_irrelevant.
+
+(* non-vacuity: a tree using a conditional, two binary levels, a unary operator, a call, an index and a member
+   access is well formed; its printed form needs exactly one pair of parentheses *)
+Definition C09_example_tree : tree :=
+  let s := bytes_of_string in
+  TCond (TBin 3 0 (TAtom (s "a"%string)) (TBin 1 0 (TAtom (s "b"%string)) (TNum 3)))
+        (TCall (TAtom (s "g"%string)) [TUn 0 (TAtom (s "x"%string)); TIndex (TAtom (s "y"%string)) (TNum 0)])
+        (TBin 1 0 (TBin 3 0 (TNum 1) (TNum 2)) (TAccess (TAtom (s "r"%string)) (s "port"%string))).
+Example C09_roundtrip_example :
+  m_wf C09_example_tree /\
+  string_of_bytes (m_print C09_example_tree) = "a >= b + 3 ? g ( ! x , y [ 0 ] ) : ( 1 >= 2 ) + r . port"%string.
+Proof. split; [|vm_compute; reflexivity]. vm_compute. intuition (try discriminate; try lia). Qed.
